@@ -29,14 +29,19 @@ def tup(x):
     return tuple(tup(y) for y in x) if isinstance(x, (list, tuple)) else x
 
 
-def ann_json(t):
+TYPE_ANNOTS = [False]    # family switch: give every node without field annotation a type annotation (these are not entrypoints)
+
+
+def ann_json(t, path=''):
     """annotated model type -> Micheline type expression with %annots"""
     if t[0] == 'or':
-        e = {'prim': 'or', 'args': [ann_json(t[2]), ann_json(t[3])]}
+        e = {'prim': 'or', 'args': [ann_json(t[2], path + 'l'), ann_json(t[3], path + 'r')]}
     else:
         e = {'prim': t[2]}
     if t[1]:
         e['annots'] = ['%' + t[1]]
+    elif TYPE_ANNOTS[0]:
+        e['annots'] = [':' + ('b' if path.endswith('l') else 'default' if path else 'a')]
     return e
 
 
@@ -91,7 +96,7 @@ class TypeCase:
         self.collision = False    # pytezos lists no separate entry for the whole parameter
 
     def case(self, **kw):
-        d = {'T': to_json(self.T), 'michelson': michelson(self.T), 'tab': to_json(self.tab),
+        d = {'type_annots': TYPE_ANNOTS[0], 'T': to_json(self.T), 'michelson': michelson(self.T), 'tab': to_json(self.tab),
              'joins': to_json([[k[0], k[1], v] for k, v in self.join.items()])}
         d.update(kw)
         return d
@@ -257,7 +262,8 @@ def check_join(ctx, tc, e, a, full, best):
     return decompose(ctx, tc, obj, full, best, 'join', case) is not None
 
 
-def run_family(ctx, name, depth, names, rots, timeout):
+def run_family(ctx, name, depth, names, rots, timeout, type_annots=False):
+    TYPE_ANNOTS[0] = type_annots
     gen = {'MichEntryMC': MC % to_tla(BASES)}
     cfg = CFG % (depth, ', '.join('"%s"' % n for n in names), ', '.join(map(str, rots)))
     r = ctx.tlc('MichEntryMC', cfg, name=name, gen=gen, timeout=timeout, coverage=False)
@@ -310,15 +316,17 @@ def run(ctx):
                        'the name listed for the whole parameter is asserted only when Tezos fixes it (root unannotated or %default, no branch named default: `default`); '
                        'otherwise the one listed name that is not a branch is taken to be the whole parameter',
                        'to_parameters may pick any listed entrypoint whose pair denotes the value (the model picks the deepest); only the denoted full value is compared',
-                       'leaf values: int {-1, 5}, string {"", "x"}, unit']
+                       'leaf values: int {-1, 5}, string {"", "x"}, unit',
+                       'in some families every node without field annotation is given a type annotation (:a, :b, :default) when the type is handed to pytezos; '
+                       'type annotations do not name entrypoints, so the model is unchanged']
     n = 0
     if ctx.quick:
         n += run_family(ctx, 'ME_d2', 2, ['a', 'b', 'default'], [0], 600)
-        n += run_family(ctx, 'ME_d1_root', 1, ['a', 'default', 'root'], [1], 600)
+        n += run_family(ctx, 'ME_d1_root', 1, ['a', 'default', 'root'], [1], 600, type_annots=True)
     else:
         n += run_family(ctx, 'ME_d2', 2, ['a', 'b', 'default', 'root'], [0, 1, 2], 1500)
         n += run_family(ctx, 'ME_d3_ad', 3, ['a', 'default'], [0], 1500)
-        n += run_family(ctx, 'ME_d3_ab', 3, ['a', 'b'], [1], 1500)
+        n += run_family(ctx, 'ME_d3_ab', 3, ['a', 'b'], [1], 1500, type_annots=True)
     ctx.extra['types'] = n
     ctx.exhaustive = True
 
@@ -326,6 +334,7 @@ def run(ctx):
 def replay(ctx, rep):
     c = rep['case']
     T = tup(c['T'])
+    TYPE_ANNOTS[0] = bool(c.get('type_annots'))
     tc = TypeCase(T, tup(c['tab']), [tup(j) for j in c['joins']])
     ok = check_listing(ctx, tc)
     if tc.cls is not None:
